@@ -613,6 +613,7 @@ func main() {
 	runEveryRune()
 	runDigitPositions()
 	runDMHintRuns()
+	runDMLongRuns()
 	runHugeCanvases()
 	runShortStrings()
 	runCode128Product()
